@@ -235,26 +235,6 @@ Section walk.
     inversion HQl; subst. cbn [map]. rewrite (Hfg x y) by assumption. constructor. now apply IH.
   Qed.
 
-  Lemma walk_msg_eq : forall m1 m2, msg_equiv m1 m2 -> wf_msg m1 -> walk_msg o1 m1 = walk_msg o2 m2.
-  Proof.
-    intros m1 m2 (E1 & E2 & Pa & Pr & E3 & E4 & E5 & E6 & E7 & E8 & E9 & E10 & Fs) (Wa & Wr & Ws).
-    unfold walk_msg. rewrite E1, E2, E3, E4, E5, E6, E7, E8, E9, E10.
-    rewrite (get_attrs_eq _ _ Pa Wa).
-    assert (Hr : sorted_by o1 site_recv recv_key str2_leb (rm_recv m1)
-                 = sorted_by o2 site_recv recv_key str2_leb (rm_recv m2)).
-    { apply sorted_by_eq; try assumption; [apply str2_laws|].
-      intros a b Ha Hb E. apply (NoDup_map_inj_on rr_eid (rm_recv m1)); try assumption.
-      unfold recv_key in E. now injection E. }
-    rewrite Hr.
-    assert (Hs : map (walk_sig o1) (rm_sigs m1) = map (walk_sig o2) (rm_sigs m2)).
-    { eapply (map_eq_Forall2 sig_equiv wf_sig); try eassumption.
-      apply Forall_forall. intros x _ y. apply walk_sig_eq. }
-    now rewrite Hs.
-  Qed.
-
-  Lemma walk_msg_key : forall o m, msg_key (walk_msg o m) = msg_key m.
-  Proof. reflexivity. Qed.
-
   Lemma key_inj_map : forall {A K B} (key : A -> K) (sub : A -> B) (w : A -> A) l,
     (forall a, key (w a) = key a) -> (forall a, sub (w a) = sub a) ->
     (forall a b, key a = key b -> sub a = sub b) ->
@@ -265,6 +245,34 @@ Section walk.
     - rewrite map_map. erewrite map_ext; [exact Hn|]. intro; apply Hs.
     - now apply Hks.
   Qed.
+
+  Lemma walk_recv_eq : forall r1 r2, recv_equiv r1 r2 -> wf_attrs (rr_attrs r1) -> walk_recv o1 r1 = walk_recv o2 r2.
+  Proof.
+    intros r1 r2 (E1 & E2 & E3 & E4 & E5 & Pa) W. unfold walk_recv.
+    now rewrite E1, E2, E3, E4, E5, (get_attrs_eq _ _ Pa W).
+  Qed.
+
+  Lemma walk_msg_eq : forall m1 m2, msg_equiv m1 m2 -> wf_msg m1 -> walk_msg o1 m1 = walk_msg o2 m2.
+  Proof.
+    intros m1 m2 (E1 & E2 & Pa & Pr & E3 & E4 & E5 & E6 & E7 & E8 & E9 & E10 & Fs) (Wa & Wr & Wra & Ws).
+    unfold walk_msg. rewrite E1, E2, E3, E4, E5, E6, E7, E8, E9, E10.
+    rewrite (get_attrs_eq _ _ Pa Wa).
+    assert (Hr : sorted_by o1 site_recv recv_key str2_leb (map (walk_recv o1) (rm_recv m1))
+                 = sorted_by o2 site_recv recv_key str2_leb (map (walk_recv o2) (rm_recv m2))).
+    { apply sorted_by_eq; try assumption; [apply str2_laws| |].
+      - eapply (perm_map_equiv recv_equiv (fun rc => wf_attrs (rr_attrs rc))); try eassumption.
+        intros; now apply walk_recv_eq.
+      - apply (key_inj_map recv_key rr_eid (walk_recv o1)); try reflexivity; [|assumption].
+        intros a b E. unfold recv_key in E. now injection E. }
+    rewrite Hr.
+    assert (Hs : map (walk_sig o1) (rm_sigs m1) = map (walk_sig o2) (rm_sigs m2)).
+    { eapply (map_eq_Forall2 sig_equiv wf_sig); try eassumption.
+      apply Forall_forall. intros x _ y. apply walk_sig_eq. }
+    now rewrite Hs.
+  Qed.
+
+  Lemma walk_msg_key : forall o m, msg_key (walk_msg o m) = msg_key m.
+  Proof. reflexivity. Qed.
 
   Lemma walk_nif_eq : forall x1 x2, nif_equiv x1 x2 -> wf_nif x1 -> walk_nif o1 x1 = walk_nif o2 x2.
   Proof.
@@ -314,10 +322,13 @@ Proof.
     induction Hg; constructor; assumption.
 Qed.
 
+Lemma recv_equiv_refl : forall r, recv_equiv r r.
+Proof. intro r. repeat split; reflexivity. Qed.
 Lemma msg_equiv_refl : forall m, msg_equiv m m.
 Proof.
   intro m. repeat split; try reflexivity.
-  induction (rm_sigs m); constructor; [apply sig_equiv_refl|assumption].
+  - apply PermEquiv_refl, recv_equiv_refl.
+  - induction (rm_sigs m); constructor; [apply sig_equiv_refl|assumption].
 Qed.
 Lemma nif_equiv_refl : forall x, nif_equiv x x.
 Proof. intro x. repeat split; try reflexivity. apply PermEquiv_refl, msg_equiv_refl. Qed.
@@ -374,8 +385,8 @@ Definition ex_e1 : sigenum := {| se_id := 0; se_name := "en"; se_desc := ""; se_
                  {| ev_name := "b"; ev_index := 1; ev_desc := "" |} ] |}.
 Definition ex_e2 : sigenum := {| se_id := 1; se_name := "en"; se_desc := "second"; se_maxindex := 0; se_values := [] |}.
 Definition ex_m1 : rmsg := {| rm_h := 10; rm_eid := "e-m1"; rm_attrs := [ex_a2; ex_a1];
-  rm_recv := [ {| rr_h := 21; rr_name := "N"; rr_eid := "e-n2"; rr_num := 0 |};
-               {| rr_h := 20; rr_name := "N"; rr_eid := "e-n1"; rr_num := 1 |} ];
+  rm_recv := [ {| rr_h := 21; rr_name := "N"; rr_eid := "e-n2"; rr_num := 0; rr_id := 2; rr_attrs := [ex_a2] |};
+               {| rr_h := 23; rr_name := "N"; rr_eid := "e-n3"; rr_num := 1; rr_id := 2; rr_attrs := [ex_a2; ex_a1] |} ];
   rm_name := "static five"; rm_desc := ""; rm_static := true; rm_canid := 5; rm_id := 5; rm_size := 8;
   rm_byteorder := "little-endian"; rm_cycle := 0;
   rm_sigs := [ RStd 30 [ex_a1] "s1" "" 0 ex_t2 None;
@@ -398,7 +409,7 @@ Ltac nodup_strings :=
 Lemma ex_rnet_wf : wf_net ex_rnet.
 Proof.
   split; [nodup_strings|].
-  repeat (constructor; try (unfold wf_bus, wf_nif, wf_msg, wf_attrs, wf_enum; cbn [map rb_attrs rb_nifs rn_attrs rn_msgs rm_attrs rm_recv rm_sigs
+  repeat (constructor; try (unfold wf_bus, wf_nif, wf_msg, wf_attrs, wf_enum; cbn [map rb_attrs rb_nifs rn_attrs rn_msgs rm_attrs rm_recv rm_sigs rr_attrs
     ra_eid rn_id rm_eid rr_eid ex_rnet ex_m1 ex_m2 ex_a1 ex_a2 ev_index se_values ex_e1 ex_e2]));
     try nodup_strings; try (cbn; intuition (discriminate || lia)).
 Qed.
@@ -409,5 +420,5 @@ Lemma ex_rnet_nontrivial :
   /\ walk o_id ex_rnet = walk o_rev ex_rnet
   /\ rt_buses ex_rnet <> rev (rt_buses ex_rnet)
   /\ save_raw o_id ex_rnet = save_raw (o_rot 1) ex_rnet
-  /\ List.length (save_raw o_id ex_rnet) = 36%nat.
+  /\ List.length (save_raw o_id ex_rnet) = 39%nat.
 Proof. repeat split; try (vm_compute; reflexivity). intro H. vm_compute in H. discriminate H. Qed.
